@@ -1,16 +1,6 @@
-# Per-property registry used by bin/check.py (orchestration data only).
-PROPS = {
-    "C11": dict(
-        driver="c11", corr="Corr_C11", quick_n=3000, thorough_n=48000, shard=1000,
-        rule="cases: real EmailAddressValidator/EmailDomainValidator objects on generated (rules, e-mail) pairs "
-             "(case variants, unicode, 0-3 '@', look-alikes built from each configured domain, wildcards) and, for 1/6 of "
-             "the cases, the real proxy built by proxy.New for a generated policy observed at login callback, next request "
-             "and first revalidation. non-trivial = class != 0 (an accepted or wildcard case, or any end-to-end gate case); "
-             "distinct = distinct (rules, e-mail, answers) tuples",
-        trivial_classes=[0, 10],
-        assumptions=["strings.ToLower is an oracle: the case carries Go's results; theorems hold for every folding function",
-                     "provider /profile answers are scripted by the fake authenticator",
-                     "domain rule theorem guarded by: a configured domain contains no '@'"],
-        trusted_base=["modelled, not verified: strings.ToLower (oracle), YAML parsing of the generated policy, net/http"],
-    ),
-}
+# Per-property registry used by bin/check.py: one JSON file per property under /verif/registry.
+import json, glob, os
+_ROOT = os.path.dirname(os.path.dirname(os.path.abspath(__file__)))
+PROPS = {}
+for _f in sorted(glob.glob(os.path.join(_ROOT, "registry", "C*.json"))):
+    PROPS[os.path.basename(_f)[:-5]] = json.load(open(_f))
